@@ -69,7 +69,15 @@ func buildBytes(sd *SegDef, idx int, dv map[string]bool, sched *Sched) ([]byte, 
 	docs := ExpandBatch(sd, idx)
 	var seg segment.Segment
 	var err error
-	pi := Guard(func() { seg, _, err = ice.VerifNew(ToSegmentDocs(docs, dv, sched), model.NormFn(sd.Norm), sd.Mode) })
+	inTask := sched.Active() // concurrent builders: the pool bookkeeping is done by the caller before the run
+	if !inTask {
+		PreBuild(IceImpl, len(docs))
+	}
+	var size uint64
+	pi := Guard(func() { seg, size, err = ice.VerifNew(ToSegmentDocs(docs, dv, sched), model.NormFn(sd.Norm), sd.Mode) })
+	if !inTask {
+		PostBuild(IceImpl, len(docs), size)
+	}
 	if pi != nil || err != nil {
 		return nil, err, pi
 	}
@@ -154,6 +162,13 @@ func runBuildHCase(c *Case, env *Env) *Result {
 			n++
 		}
 		outs := make([]out, n)
+		maxDocs := nTarget
+		for i := range bc.Conc {
+			if k := len(ExpandBatch(&bc.Conc[i], 100+i)); k > maxDocs {
+				maxDocs = k
+			}
+		}
+		PreBuild(IceImpl, maxDocs)
 		var bodies []func(int)
 		bodies = append(bodies, func(int) { outs[0].b, outs[0].err, outs[0].pi = buildBytes(&bc.Target, 0, dv, sched) })
 		for i := range bc.Conc {
